@@ -412,7 +412,7 @@ func generate(r *rand.Rand, i int) job {
 type callDesc struct {
 	Op     string `json:"op"`
 	Gas    string `json:"gas"`
-	Value  int    `json:"value"`
+	Value  string `json:"value"`
 	Target string `json:"target"`
 }
 
@@ -423,9 +423,18 @@ type memCase struct {
 	C  string `json:"c"`
 }
 
+type layoutCase struct {
+	N       int   `json:"n"`
+	Present int   `json:"present"`
+	Mod     int   `json:"mod"`
+	Code    []int `json:"code"`
+}
+
 type script struct {
-	Calls [][]callDesc `json:"calls"`
-	Mem   []memCase    `json:"mem"`
+	Calls   [][]callDesc `json:"calls"`
+	Loops   [][]callDesc `json:"loops"`
+	Mem     []memCase    `json:"mem"`
+	Layouts []layoutCase `json:"layouts"`
 }
 
 // classValue: the operand classes of spec/EvmGasGen.tla
@@ -455,6 +464,8 @@ func classValue(c string) *big.Int {
 		return p(64)
 	case "p255":
 		return p(255)
+	case "p255p1":
+		return new(big.Int).Add(p(255), one)
 	case "p255x":
 		return new(big.Int).Add(p(255), big.NewInt(0x100000))
 	case "max":
@@ -464,9 +475,14 @@ func classValue(c string) *big.Int {
 	return nil
 }
 
-// compileCalls: the call instructions of one TLC sequence, in the outermost frame
-func compileCalls(cs []callDesc) []byte {
+// compileCalls: the call instructions of one TLC sequence, in the outermost frame; loops > 0 wraps them
+// in a counted loop (the gas of the frame must go down along every step of every iteration)
+func compileCalls(cs []callDesc, loops int) []byte {
 	a := eu.NewAsm()
+	if loops > 0 {
+		a.PushInt(uint64(loops)).Label("again")
+	}
+	defer func() {}()
 	for _, c := range cs {
 		a.PushInt(0).PushInt(0).PushInt(0).PushInt(0)
 		var op byte
@@ -483,7 +499,7 @@ func compileCalls(cs []callDesc) []byte {
 			vutil.Fatalf("unknown call kind %q", c.Op)
 		}
 		if op == eu.CALL || op == eu.CALLCODE {
-			a.PushInt(uint64(c.Value))
+			a.Push(classValue(c.Value).Bytes())
 		}
 		switch c.Target {
 		case "empty":
@@ -502,6 +518,10 @@ func compileCalls(cs []callDesc) []byte {
 		}
 		a.Op(op, eu.POP)
 	}
+	if loops > 0 {
+		a.PushInt(1).Op(eu.SWAP1, eu.SUB, eu.DUP1).PushLabel("again").Op(eu.JUMPI)
+	}
+	a.Op(eu.STOP)
 	return a.Bytes()
 }
 
@@ -555,7 +575,20 @@ func runScript(path string) {
 		vutil.Fatalf("parse script: %v", err)
 	}
 	for _, cs := range sc.Calls {
-		execute(job{kind: "tlc-calls", code: compileCalls(cs), gas: 200000})
+		execute(job{kind: "tlc-calls", code: compileCalls(cs, 0), gas: 200000})
+	}
+	for _, cs := range sc.Loops {
+		execute(job{kind: "tlc-loop", code: compileCalls(cs, 6), gas: 3000000})
+	}
+	for i, l := range sc.Layouts {
+		code := make([]byte, len(l.Code))
+		for k, x := range l.Code {
+			code[k] = byte(x)
+		}
+		execute(job{kind: "tlc-layout", code: code, gas: 100000})
+		if i%4 == 0 { // the same layout as init code of a creation
+			execute(job{kind: "tlc-layout-create", code: code, gas: 200000, create: true})
+		}
 	}
 	for _, m := range sc.Mem {
 		execute(job{kind: "tlc-mem", code: compileMem(m), data: []byte{1, 2, 3, 4, 5}, gas: 1000000})
@@ -629,6 +662,16 @@ func main() {
 	for i := 0; i < *deep; i++ {
 		k := []byte{eu.CALL, eu.CALLCODE, eu.DELEGATECALL, eu.STATICCALL}[i%4]
 		execute(job{kind: "deep", code: recursive(r, k, false), gas: 1 << 44})
+	}
+	if *pre > 0 {
+		// modexp with base length 1, exponent length 2^64-1, modulus length 0 and all the gas a uint64 can hold
+		in := make([]byte, 97)
+		in[31] = 1
+		for i := 56; i < 64; i++ {
+			in[i] = 0xff
+		}
+		in[96] = 7
+		precompile(r, 5, in, ^uint64(0))
 	}
 	for a := 1; a <= 18; a++ {
 		for i := 0; i < *pre; i++ {
